@@ -74,17 +74,43 @@ Proof.
   exists x, n. auto.
 Qed.
 
-(* The run-level statement that is NOT proved here (it needs two more facts for every op of `step`: an
-   AnyIO-tagged request is only ever placed by a delivery run of its origin scope, and while a task is suspended
-   with a request neither its current scope nor the parent links above it change).  It is kept visible. *)
+(* ---------------- the run-level statement ---------------- *)
 Definition pop (s : st) (h : handle) : st := set_ready s (remove_first h (ready s)).
 
+(* handle h is in the ready queue and running it makes task t receive CancelledError tagged with scope org *)
 Definition receives (s : st) (h : handle) (t : tid) (org : sid) : Prop :=
   In h (ready s) /\
   ((h = HStep t /\ snd (incoming (pop s h) t None) = Some (ECancel (S org))) \/
    (exists f, h = HWake t f /\ snd (incoming (pop s h) t (Some f)) = Some (ECancel (S org)))).
 
+(* The window statement for EVERY receipt of EVERY run of the generated domain (proved in scopes/ReceiptRun.v as
+   receipt_window_run_holds, from two facts established for every op of `step` in scopes/ReceiptWalk.v /
+   ReceiptRun.v: a tagged request is only ever placed by a delivery run of its origin, which is then cancelled and
+   visible from the task's current scope; and a task that does not act keeps its current scope while the parent links
+   of entered scopes and the cancel flags never change back).
+   Either the exception is not a cancellation REQUEST at all but was read from a future that was completed with an
+   exception -- in the model only TaskGroup.start()'s future is, by the child's task_done with the child's own
+   exception: "if the child ends before calling started(), start() raises the child's exception" (property C07,
+   DESIGN 11.9) -- or there is a prefix of the run (the moment the request was placed) at which the origin was
+   cancelled and visible from the task's current scope through unshielded, uncancelled scopes, the task's current scope
+   is the same at receipt, and at receipt the walk still finds a cancelled scope unless a shield was raised in between
+   on a scope strictly below the origin (F25, and nothing else). *)
 Definition receipt_window_run_statement : Prop :=
+  forall ops h t org,
+    ops_ok init ops = true -> receives (final step init ops) h t org ->
+    (exists f, h = HWake t f /\ f_st (futs (final step init ops) f) = FExc (ECancel (S org))) \/
+    exists pre post x n,
+      ops = pre ++ post /\
+      let s0 := final step init pre in let s1 := final step init ops in
+      k_cur (tasks s0 t) = Some x /\ k_cur (tasks s1 t) = Some x /\ up s0 x n = Some org /\
+      s_cancelled (scopes s0 org) = true /\
+      (forall j y, j < n -> up s0 x j = Some y -> s_cancelled (scopes s0 y) = false /\ s_shield (scopes s0 y) = false) /\
+      (eff_cancelled s1 x = true \/
+       exists j y, j < n /\ up s0 x j = Some y /\ s_shield (scopes s0 y) = false /\ s_shield (scopes s1 y) = true).
+
+(* The same WITHOUT the first disjunct is FALSE (this is how the statement read before; it is kept only to record its
+   refutation): a receipt through a start future is not a request of the receiving task. *)
+Definition receipt_window_without_future_path : Prop :=
   forall ops h t org,
     ops_ok init ops = true -> receives (final step init ops) h t org ->
     exists pre post x n,
@@ -95,6 +121,59 @@ Definition receipt_window_run_statement : Prop :=
       (forall j y, j < n -> up s0 x j = Some y -> s_cancelled (scopes s0 y) = false /\ s_shield (scopes s0 y) = false) /\
       (eff_cancelled s1 x = true \/
        exists j y, j < n /\ up s0 x j = Some y /\ s_shield (scopes s0 y) = false /\ s_shield (scopes s1 y) = true).
+
+(* Witness: task 1 sits in scope 2, shielded from its creation, inside the group's scope 1, and calls start(); the
+   child (task 2) is cancelled through scope 1 before it calls started() and ends with "Cancelled via cancel scope 1";
+   its task_done hands that exception to the start future (6); task 1's wake-up reads it from the future and start()
+   re-raises it -- although scope 1 was never visible from task 1's current scope.  C07 governs this path (start()
+   raises the child's exception), not C04. *)
+Definition start_reraise_ops : list op :=
+  [ANewRoot; AGroupNew 1; AGroupEnter 1 1; ANewScope 1 None true; AEnter 1 2; AStart 1 1; ARun (HStep 2); ANewRoot;
+   ACancel 3 1; ARun (HWake 2 7); AFinish 2 0; ARun (HDeliver 1); ARun (HTaskDone 2)].
+
+Example start_reraises_child_cancellation_witness :
+  let s := final step init start_reraise_ops in
+  ops_ok init start_reraise_ops = true /\
+  receives s (HWake 1 6) 1 1 /\ snd (step s (ARun (HWake 1 6))) = RExc (ECancel 2) /\
+  (* the exception is in the start future of the child, put there by the child's task_done *)
+  k_startfut (tasks s 2) = Some 6 /\ f_st (futs s 6) = FExc (ECancel 2) /\
+  k_done (tasks s 2) = Some (OCanc (ECancel 2)) /\
+  (* task 1 itself holds no request, its current scope is the shielded scope 2, not effectively cancelled *)
+  k_must (tasks s 1) = false /\ k_cur (tasks s 1) = Some 2 /\ s_shield (scopes s 2) = true /\
+  eff_cancelled s 2 = false.
+Proof.
+  vm_compute. refine (conj eq_refl (conj _ _)); [|repeat split; reflexivity].
+  split; [now left|]. right. exists 6. split; reflexivity.
+Qed.
+
+Lemma firstn_prefix {A} (pre post : list A) : firstn (length pre) (pre ++ post) = pre.
+Proof. rewrite firstn_app, Nat.sub_diag, firstn_all. cbn. apply app_nil_r. Qed.
+
+Lemma start_reraise_cur : k_cur (tasks (final step init start_reraise_ops) 1) = Some 2.
+Proof. vm_compute. reflexivity. Qed.
+
+(* in every prefix of the witness in which task 1's current scope is 2, scope 2 is shielded *)
+Lemma start_reraise_prefixes :
+  forallb (fun k => let s0 := final step init (firstn k start_reraise_ops) in
+                    negb (opt_eqb (k_cur (tasks s0 1)) 2) || s_shield (scopes s0 2)) (seq 0 14) = true.
+Proof. vm_compute. reflexivity. Qed.
+
+Theorem receipt_window_without_future_path_refuted : ~ receipt_window_without_future_path.
+Proof.
+  intros H.
+  pose proof start_reraises_child_cancellation_witness as Wt. cbv zeta in Wt. destruct Wt as (Hok & Hr & _).
+  destruct (H start_reraise_ops (HWake 1 6) 1 1 Hok Hr) as (pre & post & x & n & E & C0 & C1 & U & _ & Op & _).
+  pose proof (eq_trans (eq_sym C1) start_reraise_cur) as Ex. injection Ex as ->.
+  destruct n as [|n]; [cbn [up] in U; discriminate U|].
+  assert (U0 : up (final step init pre) 2 0 = Some 2) by (cbn [up]; reflexivity).
+  destruct (Op 0 2 (Nat.lt_0_succ n) U0) as [_ Hs]. clear H Hok Hr Op U C1 U0.
+  pose proof start_reraise_prefixes as Hall. rewrite forallb_forall in Hall.
+  assert (Hl : length pre <= 13).
+  { assert (L : length (pre ++ post) = 13) by (rewrite <- E; reflexivity). rewrite app_length in L. lia. }
+  specialize (Hall (length pre) ltac:(apply in_seq; lia)). cbv zeta in Hall.
+  assert (Ef : firstn (length pre) start_reraise_ops = pre) by (rewrite E; apply firstn_prefix).
+  rewrite Ef, C0 in Hall. cbn [opt_eqb] in Hall. rewrite Nat.eqb_refl, Hs in Hall. discriminate Hall.
+Qed.
 
 (* F25 is an instance of the gap: request placed by AExtCancel 1 (prefix of 7 ops) while scope 2 was unshielded;
    the shield of scope 2 (index 0 of the chain 2 -> 1) is raised before task 1 runs *)
